@@ -34,6 +34,7 @@
 
 void ed_curve_init(void) {
 	ctx_t *ctx = core_get();
+	ctx->ed_id = 0;
 #ifdef ED_PRECO
 	for (int i = 0; i < RLC_ED_TABLE; i++) {
 		ctx->ed_ptr[i] = &(ctx->ed_pre[i]);
